@@ -10,17 +10,23 @@ from vlib import unitmodel as um
 from vlib.harness import Sub
 
 PROPERTY = "C10"
-RULE = ("fixed catalogue of ~95 numpy ufuncs / array functions in three unit classes (unchanged / transformed / "
-        "dimensionless) plus a values-only class; call forms: positional, axis= (int/None/tuple), keepdims=, out= for "
-        "ufuncs; unit assignments for n-ary functions: same / compatible-different / incompatible / bare ndarray or "
-        "number mixed in; dtypes float64/32 int64/32; shapes 1-d and 2-d.  Oracle: values = numpy on the raw values "
+RULE = ("fixed catalogue of ~100 numpy ufuncs / array functions in three unit classes (unchanged / transformed / "
+        "dimensionless, incl. logical_*, any, all) plus a values-only class; call forms: positional, axis= (int/None/tuple), "
+        "keepdims=, out= for ufuncs and for array functions (sum, std, cumsum, clip ...), the condition of where / compress as "
+        "ndarray or Array, a bare operand first (np.divide(2.0, A)), sequences of two or three, clip with one or both bounds; "
+        "unit assignments for n-ary functions: same / compatible-different / incompatible / bare ndarray or "
+        "number mixed in; dtypes float64/32 int64/32 complex128 uint8 float16 bool; NaN/inf values; shapes 1-d and 2-d; "
+        "ufunc methods reduce / accumulate / outer of add, maximum, minimum, multiply, divide (refused, or dimensionally "
+        "correct: multiply.reduce of n values has unit u^n, multiply.accumulate has no single unit).  Oracle: values = numpy on the raw values "
         "(n-ary functions: compared as physical quantities in cgs from the independent unit model, all of them are "
         "positively homogeneous), unit by class; compatible-different operands: physically correct or raises; "
         "incompatible: must raise; result dtype = numpy's.  The (function x assignment x dtype) table is enumerated "
         "exhaustively on fixed operands and values/shapes/units are generated.  non-trivial = mixed-unit assignment, or "
         "a keyword form, or a non-float64 dtype.")
 ASSUMPTIONS = [
-    "a bare number/ndarray mixed with a dimensional Array may be treated as being in that unit or be rejected",
+    "a bare number/ndarray mixed with a dimensional Array may be treated as being in that unit or be rejected, except "
+    "for multiply / divide / power, where a bare operand carries no unit and the call must succeed",
+    "a boolean Array carries no unit (generated dimensionless)",
     "functions whose unit the statement does not fix (argsort/argmax/argmin/log/exp/sin) are judged on values only; "
     "var, prod, dot, cross and tuple-returning functions are outside the catalogue",
     "tolerances: exact for unary functions; n-ary 1e-9 (1e-5 with float32) on cgs values",
@@ -65,12 +71,19 @@ for _n in ["isnan", "isfinite", "isinf", "signbit"]:
     CAT[_n] = (DIMLESS, "unary")
 for _n in ["less", "less_equal", "greater", "greater_equal", "equal", "not_equal"]:
     CAT[_n] = (DIMLESS, "binary")
+for _n in ["logical_and", "logical_or", "logical_xor"]:
+    CAT[_n] = (DIMLESS, "binary")
+CAT["logical_not"] = (DIMLESS, "unary")
+for _n in ["any", "all"]:
+    CAT[_n] = (DIMLESS, "reduce")
 for _n in ["argsort", "argmax", "argmin", "log", "log10", "exp", "sin"]:
     CAT[_n] = (VALS, "unary")
+LOGICAL = {"logical_and", "logical_or", "logical_xor", "logical_not", "any", "all"}
 UFUNCS = {"abs", "absolute", "fabs", "negative", "positive", "floor", "ceil", "trunc", "rint", "maximum", "minimum",
           "fmax", "fmin", "add", "subtract", "hypot", "multiply", "divide", "true_divide", "sqrt", "square", "cbrt",
           "reciprocal", "power", "isnan", "isfinite", "isinf", "signbit", "less", "less_equal", "greater",
-          "greater_equal", "equal", "not_equal", "log", "log10", "exp", "sin"}
+          "greater_equal", "equal", "not_equal", "log", "log10", "exp", "sin", "logical_and", "logical_or", "logical_xor",
+          "logical_not"}
 EXPO = {"sqrt": 0.5, "square": 2, "cbrt": 1.0 / 3.0, "reciprocal": -1}
 NAMES = sorted(CAT)
 
@@ -79,14 +92,26 @@ NAMES = sorted(CAT)
 def case_st(draw, name=None):
     name = name or draw(st.sampled_from(NAMES))
     cls, form = CAT[name]
-    dt = draw(st.sampled_from(vs.DTYPES + vs.DTYPES + ["complex128"]))
+    dt = draw(st.sampled_from(vs.DTYPES + vs.DTYPES + ["complex128", "uint8", "float16", "bool"]))
     two_d = draw(st.booleans())
     shape = [draw(st.integers(1, 4)), draw(st.integers(1, 4))] if two_d else [draw(st.integers(1, 6))]
     ua, ub, rel = draw(vs.unit_pairs())
     positive = name in ("sqrt", "log", "log10", "cbrt", "reciprocal", "power")
-    a = draw(vs.array_specs(units=[ua], dtypes=[dt], shape=shape, positive=positive,
+    if name in LOGICAL or dt == "bool":
+        ua = ub = "dimensionless"       # truth values carry no unit
+        rel = "same"
+    specials = dt == "float64" and not positive and draw(st.integers(0, 3)) == 0
+    a = draw(vs.array_specs(units=[ua], dtypes=[dt if dt not in ("uint8", "float16", "bool") else "int64"], shape=shape,
+                            positive=positive or dt == "uint8", specials=specials,
                             allow_zero=name not in ("reciprocal", "divide", "true_divide", "log", "log10")))
+    if dt in ("uint8", "float16", "bool"):
+        # small non-negative integers are representable in all three
+        a["vals"] = [abs(int(v)) % (2 if dt == "bool" else 200) or (1 if name in ("reciprocal", "divide", "true_divide", "log", "log10") else 0)
+                     for v in a["vals"]]
+        a["dtype"] = dt
     case = {"f": name, "a": a, "kw": {}}
+    if specials:
+        case["specials"] = True
     if form in ("reduce", "axisop"):
         kwform = draw(st.sampled_from(["none", "none", "axis0", "axisNone", "axis-1", "keepdims", "axistuple"]))
         if kwform == "axis0":
@@ -119,6 +144,10 @@ def case_st(draw, name=None):
     elif form == "compress":
         case["cond"] = draw(st.lists(st.booleans(), min_size=shape[0], max_size=shape[0]))
         case["kw"] = {"axis": 0} if two_d else {}
+        case["cond_as"] = draw(st.sampled_from(["nd", "Array"]))
+    if form in ("reduce", "axisop") and name not in ("median", "nanmedian", "ptp", "average", "sort", "flip", "percentile",
+                                                       "quantile") and draw(st.integers(0, 5)) == 0:
+        case["out"] = True          # out= of an array function (not a ufunc)
     if form in ("binary", "seq", "clip", "where"):
         dtb = draw(st.sampled_from(vs.DTYPES))
         assign = draw(st.sampled_from(["same", "same", "compat", "compat", "incompat", "bare_nd", "bare_num"]))
@@ -144,13 +173,18 @@ def case_st(draw, name=None):
         else:
             case["b"] = draw(vs.array_specs(units=[ub], dtypes=[dtb], shape=bshape, allow_zero=not nonzero,
                                             kind=draw(st.sampled_from(["A", "A", "A", "Q"]))))
+        if assign in ("bare_nd", "bare_num") and form in ("binary", "seq", "where") and name != "append":
+            case["swap"] = draw(st.booleans())      # the bare operand first: np.divide(2.0, A), np.where(c, 0.0, A)
         if form == "where":
+            case["cond_as"] = draw(st.sampled_from(["nd", "Array"]))
             case["cond"] = draw(st.lists(st.booleans(), min_size=vs.nelem(shape), max_size=vs.nelem(shape)))
             if case["b"].get("shape") != shape and case["b"]["k"] != "num":
                 case["b"] = draw(vs.array_specs(units=[case["b"].get("unit", "dimensionless")], dtypes=[dtb], shape=shape,
                                                 kind="nd" if assign == "bare_nd" else "A"))
         if form == "clip":
-            case["order"] = draw(st.sampled_from(["hi_only", "lo_only"]))
+            case["order"] = draw(st.sampled_from(["hi_only", "lo_only", "both"]))
+            if draw(st.integers(0, 5)) == 0 and assign == "same":
+                case["out"] = True
         if form == "seq":
             case["as"] = draw(st.sampled_from(["list", "tuple"]))
             if case["b"]["k"] == "num":
@@ -162,6 +196,7 @@ def case_st(draw, name=None):
                 case["b"]["k"] = "A"
             if name == "concatenate" and draw(st.booleans()):
                 case["kw"] = {"axis": 0}
+            case["three"] = draw(st.booleans())     # [A, A, B]: the odd unit comes last
         if name in UFUNCS and form == "binary" and draw(st.integers(0, 4)) == 0:
             case["out"] = True
     elif name in UFUNCS and form == "unary" and draw(st.integers(0, 4)) == 0:
@@ -176,11 +211,14 @@ def _kw(case):
     return kw
 
 
-def _call(func, case, A, B, raw):
+def _call(func, case, A, B, raw, extra=None):
     """Build the numpy call. raw=True: A, B are plain ndarrays (reference); else osyris objects."""
     name = case["f"]
     cls, form = CAT[name]
     kw = _kw(case)
+    if extra:
+        kw.update(extra)
+    swap = bool(case.get("swap"))
     if form in ("reduce", "axisop", "unary"):
         return func(A, **kw)
     if form == "q":
@@ -200,19 +238,29 @@ def _call(func, case, A, B, raw):
             idx = osyris.Array(values=idx)
         return func(A, idx)
     if form == "compress":
-        return func(np.array(case["cond"], dtype=bool), A, **kw)
+        cond = np.array(case["cond"], dtype=bool)
+        if case.get("cond_as") == "Array" and not raw:
+            cond = osyris.Array(values=cond)
+        return func(cond, A, **kw)
     if form == "binary":
-        return func(A, B)
+        return func(B, A) if swap else func(A, B)
     if form == "seq":
-        seq = [A, B] if case["as"] == "list" else (A, B)
+        items = [B, A] if swap else [A, B]
+        if case.get("three"):
+            items = [items[0]] + items          # [A, A, B] / [B, B, A]
+        seq = items if case["as"] == "list" else tuple(items)
         return func(seq, **kw)
     if form == "clip":
         if case["order"] == "lo_only":
-            return func(A, B, None)
-        return func(A, None, B)
+            return func(A, B, None, **kw)
+        if case["order"] == "both":
+            return func(A, B, B, **kw)
+        return func(A, None, B, **kw)
     if form == "where":
         cond = np.array(case["cond"], dtype=bool).reshape(tuple(case["a"]["shape"]))
-        return func(cond, A, B)
+        if case.get("cond_as") == "Array" and not raw:
+            cond = osyris.Array(values=cond)
+        return func(cond, B, A) if swap else func(cond, A, B)
     raise ValueError(form)
 
 
@@ -259,8 +307,11 @@ def numpy_fn(case, r):
                 out_obj = osyris.Array(values=np.zeros(np.shape(ref), dtype=ref_dt), unit="s")
                 if form == "unary":
                     got = func(a, out=out_obj)
+                elif form == "binary":
+                    got = func(b, a, out=out_obj) if case.get("swap") else func(a, b, out=out_obj)
                 else:
-                    got = func(a, b, out=out_obj)
+                    got = _call(func, case, a, b, raw=False, extra={"out": out_obj})
+                    r.label("out_array_function")
             else:
                 got = _call(func, case, a, b, raw=False)
             raised = None
@@ -272,10 +323,19 @@ def numpy_fn(case, r):
     mixed = assign in ("compat", "incompat") and cls != TRANS
     if assign == "compat" and abs(au[0] / bu[0] - 1) < 1e-12:
         mixed = False
+    for lab in ("swap", "three"):
+        if case.get(lab):
+            r.label("form_" + lab)
+    if case.get("cond_as") == "Array":
+        r.label("condition_is_Array")
+    if case.get("specials"):
+        r.label("non_finite_values")
     if raised is not None:
-        if mixed or assign in ("bare_nd", "bare_num"):
+        # refusing mixed units is allowed; so is refusing a bare number next to a dimensional Array where the unit of the
+        # result would have to be that of the Array (a bare operand of multiply / divide carries no unit: must work)
+        if mixed or (assign in ("bare_nd", "bare_num") and cls != TRANS and not um.is_dimensionless(au)):
             r.label("refused")
-            return       # refusing mixed units / bare operands is allowed
+            return
         kind = "keyword-form" if kwform else "raises"
         r.bad([name, kind, type(raised).__name__], f"np.{name}({_describe(case)}) raised {raised!r}")
         return
@@ -304,7 +364,7 @@ def numpy_fn(case, r):
         if name == "multiply":
             wu = um.umul(au, bu)
         elif name in ("divide", "true_divide"):
-            wu = um.udiv(au, bu)
+            wu = um.udiv(bu, au) if case.get("swap") else um.udiv(au, bu)
         elif name == "power":
             wu = um.upow(au, case["k"])
         else:
@@ -313,8 +373,16 @@ def numpy_fn(case, r):
         wu = None
     lowp = "float32" in (dta, case.get("b", {}).get("dtype"))
 
+    def mixed_sig(kind):
+        # the recorded finding is precisely: numpy on the raw numbers, labelled with the unit of one operand; any other
+        # wrong outcome of a mixed-unit call gets its own signature and is reported
+        raw_like = gv.shape == ref.shape and (np.array_equal(gv, ref, equal_nan=True) if gv.dtype.kind in "fc" else
+                                              np.array_equal(gv, ref))
+        one_unit = cls == DIMLESS or any(um.same_dims(gu, u) and abs(gu[0] / u[0] - 1) < 1e-12 for u in (au, bu))
+        return ["mixed-units-combined" if (raw_like and one_unit) else "mixed-units-wrong-result", kind, name]
+
     if mixed and assign == "incompat":
-        r.bad(["mixed-units-combined", "incompatible", name],
+        r.bad(mixed_sig("incompatible"),
               f"np.{name}([{case['a']['unit']}], [{case['b'].get('unit')}]) did not raise, returned [{got.unit}]")
         return
 
@@ -364,7 +432,7 @@ def numpy_fn(case, r):
                 dec = np.abs(np.broadcast_to(ac, want.shape) - np.broadcast_to(bc, want.shape)) > 1e-6 * (
                     np.abs(np.broadcast_to(ac, want.shape)) + np.abs(np.broadcast_to(bc, want.shape)))
                 if np.any(dec & (gotc != want)):
-                    r.bad(["mixed-units-combined", "compatible", name],
+                    r.bad(mixed_sig("compatible"),
                           f"np.{name}([{case['a']['unit']}], [{case['b'].get('unit')}]) compared raw numbers: got "
                           f"{gotc.tolist()} physical verdict {want.tolist()}")
                 return
@@ -378,7 +446,7 @@ def numpy_fn(case, r):
                 if cls == TRANS:
                     r.bad([name, "values"], f"np.{name}({_describe(case)}): got {gotc.tolist()} cgs, want {want.tolist()}")
                 else:
-                    r.bad(["mixed-units-combined", "compatible", name],
+                    r.bad(mixed_sig("compatible"),
                           f"np.{name}([{case['a']['unit']}], [{case['b'].get('unit')}]) combined raw numbers and labelled "
                           f"the result [{got.unit}]: {gv.tolist()} (physical result in cgs {want.tolist()})")
                 return
@@ -473,9 +541,83 @@ def _table_cases():
     return out
 
 
+# ------------------------------------------------------------------ ufunc methods (reduce / accumulate / outer)
+UM_ADD = ["add", "maximum", "minimum"]
+
+
+@st.composite
+def umethod_st(draw):
+    u = draw(st.sampled_from(["add", "maximum", "minimum", "multiply", "multiply", "divide"]))
+    m = draw(st.sampled_from(["outer"] if u == "divide" else ["reduce", "accumulate", "outer"]))
+    n = draw(st.integers(1, 5))
+    ua, ub, rel = draw(vs.unit_pairs())
+    if u in UM_ADD:
+        ub = ua                 # mixed units of the additive functions are the recorded finding: not repeated here
+    a = draw(vs.array_specs(units=[ua], dtypes=["float64"], shape=[n], allow_zero=False, positive=True))
+    b = draw(vs.array_specs(units=[ub], dtypes=["float64"], shape=[draw(st.integers(1, 4))], allow_zero=False, positive=True))
+    return {"u": u, "m": m, "a": a, "b": b}
+
+
+def ufunc_method(case, r):
+    """np.<ufunc>.<method> on Arrays: refused (an exception), or values of numpy on the raw values with the unit
+    dimensional analysis gives."""
+    uf = getattr(np, case["u"])
+    meth = getattr(uf, case["m"])
+    a = vs.build(case["a"], osyris)
+    b = vs.build(case["b"], osyris)
+    av, au = vs.model_of(case["a"])
+    bv, bu = vs.model_of(case["b"])
+    n = len(av)
+    r.label("method_" + case["m"], "ufunc_" + case["u"])
+    r.nontrivial(not um.is_dimensionless(au))
+    args_raw = (av, bv) if case["m"] == "outer" else (av,)
+    args = (a, b) if case["m"] == "outer" else (a,)
+    with warnings.catch_warnings(), np.errstate(all="ignore"):
+        warnings.simplefilter("ignore")
+        ref = np.asarray(meth(*args_raw))
+        try:
+            got = meth(*args)
+        except Exception:
+            r.label("refused")
+            return
+    if not isinstance(got, osyris.Array):
+        r.bad(["ufunc-method", case["u"], case["m"], "result-type"], type(got).__name__)
+        return
+    gv = np.asarray(got.values)
+    if gv.shape != ref.shape or not np.allclose(gv, ref, rtol=1e-12, atol=0, equal_nan=True):
+        r.bad(["ufunc-method", case["u"], case["m"], "values"], f"{gv.tolist()} vs numpy {ref.tolist()}")
+        return
+    try:
+        gu = um.from_pint(got.unit)
+    except um.UnknownUnit as e:
+        raise RuntimeError(f"unit model does not know {e}")
+    if case["u"] in UM_ADD:
+        wu = au
+    elif case["u"] == "multiply":
+        if case["m"] == "outer":
+            wu = um.umul(au, bu)
+        elif case["m"] == "reduce":
+            wu = um.upow(au, n)
+        else:
+            # the k-th partial product has unit u**k: no single unit fits unless u is a pure number (or n == 1)
+            if n > 1 and not (um.is_dimensionless(au) and abs(au[0] - 1) < 1e-12):
+                r.bad(["ufunc-method", "multiply", "accumulate", "unit-ill-defined-not-refused"],
+                      f"np.multiply.accumulate of {n} values in [{case['a']['unit']}] returned [{got.unit}]")
+                return
+            wu = au
+    else:
+        wu = um.udiv(au, bu)
+    if not um.same_dims(gu, wu) or abs(gu[0] / wu[0] - 1) > 1e-9:
+        r.bad(["ufunc-method", case["u"], case["m"], "unit"],
+              f"np.{case['u']}.{case['m']} of [{case['a']['unit']}]" + (f", [{case['b']['unit']}]" if case["m"] == "outer" else "") +
+              f" (n={n}) has unit [{got.unit}]; dimensional analysis gives factor {wu[0]!r} dims {[str(x) for x in wu[1]]}")
+
+
 def subs(ctx):
     return [
+        Sub("ufunc_methods", ufunc_method, strategy=umethod_st(), quick=300, thorough=3000),
         Sub("table", numpy_fn, cases=_table_cases()),
         Sub("numpy_fn", numpy_fn, strategy=case_st(), quick=2500, thorough=12000,
-            required={"keyword_form": 0.08, "assign_compat": 0.03, "assign_incompat": 0.02}),
+            required={"keyword_form": 0.08, "assign_compat": 0.03, "assign_incompat": 0.02, "condition_is_Array": 0.01,
+                      "form_swap": 0.02, "out_array_function": 0.01, "non_finite_values": 0.05}),
     ]
